@@ -486,6 +486,31 @@ func genC10(t *rapid.T) PatchCase {
 			c.C, c.How = c.A, "a"
 		}
 	}
+	if gen.Chance(t, "extraMember", 8) {
+		// RFC 6902, section 4: members that are not defined for the operation
+		// are ignored. The extra member is spelled like a defined one, in
+		// another case, and comes after it in the text.
+		if pv, err := val.Parse(c.Patch); err == nil {
+			if ops, ok := pv.([]val.V); ok && len(ops) > 0 {
+				k := gen.Int(t, "extraAt", 0, len(ops)-1)
+				extra := gen.Pick(t, "extraText", []string{`"Value":"zz"`, `"VALUE":[1]`, `"Path":"/zz"`, `"PATH":""`, `"OP":"remove"`, `"Op":"test"`, `"from":"/a"`, `"extra":1`, `"valuE":null`})
+				parts := make([]string, len(ops))
+				for i, op := range ops {
+					parts[i] = val.JSON(op)
+					if i == k {
+						parts[i] = strings.TrimSuffix(parts[i], "}") + "," + extra + "}"
+					}
+				}
+				c.Patch = "[" + strings.Join(parts, ",") + "]"
+				c.Unvaried = false
+				if c.Varied == "" {
+					c.Varied = "extra-member"
+				} else {
+					c.Varied += "+extra-member"
+				}
+			}
+		}
+	}
 	return c
 }
 
